@@ -501,6 +501,9 @@ func readFrom(ctx context.Context, st ebu.EventStore, from ebu.Offset) ([]*ebu.S
 func TestC18(t *testing.T) {
 	run := vk.New("C18", "fold")
 	defer run.Finish()
+	if run.Shard == 0 {
+		lateRegistration(run)
+	}
 	scratch := os.Getenv("VERIF_SCRATCH")
 	if scratch == "" {
 		scratch = t.TempDir()
